@@ -375,19 +375,27 @@ def _escapes_to_entry(ix: Any, it: Any, f: FuncInfo, ename: str) -> list[str] | 
 
 
 def _termination(rep: Report, ctx: Any, cfgs: dict[str, CFG]) -> None:
+    """R06.4.  Instances: every `while` statement and every recursive strongly connected component of the call graph.  Oracle: one of
+    five ranking arguments holds, each decided on the statement CFG of the function (edges labelled with the outcome of the test they
+    leave) and on value flow between the names involved - never on the spelling of a local or on the syntactic shape of the loop:
+      (1) fresh element of a finite universe / (4) removal before repeating  -> `_bounded_events`
+      (2) growing bounded set with change test                               -> `_growing_set`
+      (3) progress rounds over a shrinking work list                         -> `_progress_rounds`
+      (5) structural recursion on the finite document / property tree        -> `_structural`"""
     ix = ctx.py
     it, _ = ctx.flow
     n_loops = 0
     for f in ix.all_functions:
-        for n in ast.walk(f.node):
+        for n in _own_nodes(f.node):
             if not isinstance(n, ast.While):
                 continue
             n_loops += 1
             key = f"{short(f)}::while {norm(n.test)[:50]}"
-            pat, why = _while_pattern(f, n)
-            rep.check(pat is not None, "R06.4", key, f"while loop matches no termination pattern ({why})", where(f, n),
-                      lhs=norm(n.test)[:60], rhs="progress worklist | visited set", pattern=pat)
-    rep.floor("while_loops", n_loops, 4)
+            pat, why = _while_pattern(f, n, ix)
+            rep.check(pat is not None, "R06.4", key, f"while loop matches no ranking argument ({why})", where(f, n),
+                      lhs=norm(n.test)[:60], rhs="fresh element | growing bounded set | progress rounds | removal before repeating",
+                      pattern=pat)
+    rep.floor("while_loops", n_loops, 2)
     # recursive cycles of the call graph
     edges = {a: {b for b in bs if b in it.func_by_qual} for a, bs in it.call_edges.items()}
     sccs = _sccs(edges)
@@ -396,77 +404,40 @@ def _termination(rep: Report, ctx: Any, cfgs: dict[str, CFG]) -> None:
     for comp in sorted(rec):
         names = [q.replace(PKG + ".", "") for q in comp]
         key = "cycle{" + ",".join(n.rsplit(".", 1)[-1] for n in names)[:120] + "}"
-        pat = _cycle_pattern(ix, it, comp)
-        rep.check(pat is not None, "R06.4", key, f"recursive cycle {names} matches no termination pattern", where="",
-                  lhs=names[:6], rhs="structural | visited set | growing bounded set", pattern=pat)
+        pat, why = _cycle_pattern(ix, it, comp, edges)
+        rep.check(pat is not None, "R06.4", key, f"recursive cycle {names} matches no ranking argument ({why})", where="",
+                  lhs=names[:6], rhs="structural | fresh element | removal before recursing | growing bounded set | progress rounds",
+                  pattern=pat)
 
 
-def _while_pattern(f: FuncInfo, n: ast.While) -> tuple[str | None, str]:
-    test = norm(n.test)
-    # progress worklist: `while flag:` - flag cleared at loop head; set True only on a path that does not re-queue the item;
-    # the next worklist is built only from items of the current one
-    if isinstance(n.test, ast.Name):
-        flag = n.test.id
-        first = n.body[0] if n.body else None
-        cleared = isinstance(first, ast.Assign) and norm(first.targets[0]) == flag and isinstance(first.value, ast.Constant) \
-            and first.value.value is False
-        if not cleared:
-            return None, "progress flag is not cleared at the head of the loop body"
-        fors = [s for s in n.body if isinstance(s, ast.For)]
-        if len(fors) != 1:
-            return None, "expected exactly one pass over the worklist per round"
-        loop = fors[0]
-        work = norm(loop.iter)
-        # next-round list: assigned from a fresh list at loop head and to the worklist at the end
-        nxt = [norm(s.targets[0]) for s in n.body if isinstance(s, ast.Assign) and isinstance(s.value, ast.List) and not s.value.elts]
-        reassigned = [s for s in n.body if isinstance(s, ast.Assign) and norm(s.targets[0]) == work and norm(s.value) in nxt]
-        if not reassigned:
-            return None, "the worklist is not replaced by the (fresh) next-round list at the end of the round"
-        nr = norm(reassigned[0].value)
-        # every statement that sets the flag must be on a path that does not append to the next-round list
-        cfg = CFG(f.node)
-        sets = [s for s in cfg.stmts() if isinstance(s, ast.Assign) and norm(s.targets[0]) == flag and isinstance(s.value, ast.Constant)
-                and s.value.value is True and _contains(loop, s)]
-        if not sets:
-            return None, "the progress flag is never set"
-        for s in sets:
-            # within one iteration of the for-loop: no path from the for header to `s` passes through next_round.append
-            appends = [a for a in cfg.stmts() if _contains(loop, a) and stmt_calls(a, f"{nr}.append")]
-            for a in appends:
-                # a and s in the same iteration: s reachable from a without going through the for header again
-                r = cfg.reachable_from(a, avoid=lambda x: x is loop)
-                if s in r:
-                    return None, "an item can be re-queued and still count as progress"
-        # items appended to the next round come from the current worklist only
-        for a in [a for a in ast.walk(loop) if isinstance(a, ast.Call) and call_name(a) == f"{nr}.append"]:
-            arg = norm(a.args[0]) if a.args else ""
-            tgt = norm(loop.target)
-            names_in_target = {x.id for x in ast.walk(loop.target) if isinstance(x, ast.Name)}
-            names_in_arg = {x.id for x in ast.walk(a.args[0]) if isinstance(x, ast.Name)} if a.args else set()
-            if not names_in_arg or not names_in_arg <= names_in_target:
-                return None, f"next round receives `{arg}`, not an item of the current worklist `{tgt}`"
-        return "progress-worklist", ""
-    # visited set: `while <cond> and X not in seen:` with seen extended by X in the body on every path
-    for c in ast.walk(n.test):
-        if isinstance(c, ast.Compare) and len(c.ops) == 1 and isinstance(c.ops[0], ast.NotIn):
-            seen = norm(c.comparators[0])
-            item = norm(c.left)
-            first_effect = None
-            for s in n.body:
-                if stmt_calls(s, f"{seen}.append") or stmt_calls(s, f"{seen}.add"):
-                    call = (stmt_calls(s, f"{seen}.append") or stmt_calls(s, f"{seen}.add"))[0]
-                    if call.args and norm(call.args[0]) == item:
-                        first_effect = s
-                        break
-                if any(isinstance(x, (ast.Continue, ast.If, ast.Try)) for x in ast.walk(s)):
-                    break  # the extension must happen unconditionally, before any branching
-                # an assignment that changes the item before it is recorded breaks the pattern
-                if isinstance(s, ast.Assign) and any(norm(t).split(".")[0] == item.split(".")[0] for t in s.targets):
-                    break
-            if first_effect is not None:
-                return "visited-set", ""
-            return None, f"`{item}` is tested against `{seen}` but not recorded in it unconditionally at the top of the body"
-    return None, "unrecognised loop shape"
+def _while_pattern(f: FuncInfo, n: ast.While, ix: Any = None) -> tuple[str | None, str]:
+    return _first_argument(_Round(_Flow(f, ix), loop=n), _Why())
+
+
+class _Why:
+    """the reason reported for an instance that matches no argument: that of the attempt that got furthest"""
+
+    def __init__(self) -> None:
+        self.best: list[tuple[int, str]] = []
+
+    def add(self, stage: int, text: str) -> None:
+        self.best.append((stage, text))
+
+    def text(self) -> str:
+        top = max((s for s, _ in self.best), default=0)
+        out: list[str] = []
+        for s_, t in self.best:
+            if s_ == top and t not in out:
+                out.append(t)
+        return "; ".join(out[:3])
+
+
+def _first_argument(rnd: "_Round", why: _Why) -> tuple[str | None, str]:
+    for arg in (_bounded_events, _growing_set, _progress_rounds):
+        pat = arg(rnd, why)
+        if pat is not None:
+            return pat, ""
+    return None, why.text()
 
 
 def _sccs(edges: dict[str, set[str]]) -> list[set[str]]:
@@ -507,48 +478,1134 @@ def _sccs(edges: dict[str, set[str]]) -> list[set[str]]:
     return out
 
 
-def _cycle_pattern(ix: Any, it: Any, comp: list[str]) -> str | None:
-    names = {q.rsplit(".", 1)[-1] for q in comp}
+def _cycle_pattern(ix: Any, it: Any, comp: list[str], edges: dict[str, set[str]] | None = None) -> tuple[str | None, str]:
     fs = [it.func_by_qual[q] for q in comp]
-    # (a) fixpoint on a growing bounded set: the recursive call is guarded by `new != previous` and the set only grows
-    if names == {"_check_parameters_for_conflicts"}:
+    reasons = _Why()
+    # (5) every cycle of the component contains a call that descends into a strict sub-object of a parameter
+    pat, why = _structural(ix, fs, edges or {})
+    if pat is not None:
+        return pat, ""
+    reasons.add(1, why)
+    # (1) (2) (3) (4): the same arguments as for loops, a round being one activation of a directly recursive function
+    if len(fs) == 1:
         f = fs[0]
-        for n in ast.walk(f.node):
-            if isinstance(n, ast.If) and "!=" in norm(n.test) and "previously_modified_params" in norm(n.test) and any(
-                    isinstance(r, ast.Return) and stmt_calls(r, "_check_parameters_for_conflicts") for r in n.body):
-                shrink = [c for c in ast.walk(f.node) if isinstance(c, ast.Call) and call_name(c).startswith("modified_params.") and
-                          call_name(c).rsplit(".", 1)[-1] in ("remove", "discard", "pop", "clear", "difference_update")]
-                if not shrink:
-                    return "growing-bounded-set (modified_params only grows, bounded by locations x names; recursion only when it changed)"
+        fl = _Flow(f, ix)
+        calls = [(st, c) for st in fl.cfg.stmts() for c in walk_own(st) if isinstance(c, ast.Call) and _calls_function(c, f)]
+        if calls:
+            return _first_argument(_Round(fl, calls=calls), reasons)
+    else:
+        reasons.add(1, "the other ranking arguments are only decided for a directly recursive function")
+    return None, reasons.text()
+
+
+# ---------------------------------------------------------------------------------------------------------------------------------
+# R06.4 machinery.  A ROUND is one repetition: the body of a `while` (from the loop head back to the loop head) or one activation of
+# a recursive function (from its entry to a recursive call).  Paths are paths of the statement CFG; an edge that leaves an `if` /
+# `while` test carries the facts the outcome implies (truth table over the test's atoms), so `while c:` and `while True: if not c:
+# break`, early return and nested if, `x not in s` and `not x in s` are the same decision.
+
+from ..cfg import ENTRY as _ENTRY  # noqa: E402
+
+_GROW = {"add", "append", "appendleft", "extend", "extendleft", "insert", "update", "setdefault"}
+_SHRINK = {"remove", "discard", "pop", "popleft", "popitem", "clear", "difference_update", "intersection_update",
+           "symmetric_difference_update"}
+_READONLY = {"len", "set", "frozenset", "list", "tuple", "sorted", "reversed", "bool", "any", "all", "isinstance", "iter", "enumerate",
+             "zip", "print", "repr", "str", "min", "max", "sum", "dict", "id", "type"}
+_WRAPPERS = {"list", "tuple", "sorted", "reversed", "iter", "enumerate", "set", "frozenset", "chain", "cast", "zip", "filter", "deepcopy",
+             "copy"}
+_ELEMENT_METHODS = {"items", "values", "keys", "get", "copy", "pop", "union", "intersection"}
+
+
+def _own_nodes(fn: ast.AST) -> list[ast.AST]:
+    """all nodes of the function's body that belong to the function itself (nested function / class definitions are not entered)"""
+    out: list[ast.AST] = []
+    todo: list[ast.AST] = list(ast.iter_child_nodes(fn))
+    i = 0
+    while i < len(todo):  # breadth first, in source order (like ast.walk)
+        n = todo[i]
+        i += 1
+        out.append(n)
+        if not isinstance(n, (ast.FunctionDef, ast.AsyncFunctionDef, ast.ClassDef)):
+            todo.extend(ast.iter_child_nodes(n))
+    return out
+
+
+def _walk_all(nodes: list[ast.AST]) -> list[ast.AST]:
+    out: list[ast.AST] = []
+    for r in nodes:
+        out.append(r)
+        out.extend(_own_nodes(r))
+    return out
+
+
+def _const_truth(e: ast.expr) -> bool | None:
+    return bool(e.value) if isinstance(e, ast.Constant) else None
+
+
+def _atom_nodes(e: ast.expr, out: dict[str, ast.expr]) -> None:
+    if isinstance(e, ast.BoolOp):
+        for v in e.values:
+            _atom_nodes(v, out)
+    elif isinstance(e, ast.UnaryOp) and isinstance(e.op, ast.Not):
+        _atom_nodes(e.operand, out)
+    else:
+        out.setdefault(norm(e), e)
+
+
+def _implied(test: ast.expr, outcome: bool) -> list[tuple[ast.expr, bool]]:
+    """atoms of the test whose value is the same in every row of the truth table in which the test evaluates to `outcome`"""
+    from ..astutil import bool_eval
+
+    atoms: dict[str, ast.expr] = {}
+    _atom_nodes(test, atoms)
+    if len(atoms) > 8:
+        return []
+    import itertools
+
+    names = list(atoms)
+    rows = []
+    for vals in itertools.product([False, True], repeat=len(names)):
+        env = dict(zip(names, vals))
+        if bool_eval(test, env) == outcome:
+            rows.append(env)
+    return [(atoms[a], rows[0][a]) for a in names if rows and all(r[a] == rows[0][a] for r in rows)]
+
+
+def _strip_len(e: ast.expr) -> ast.expr:
+    while isinstance(e, ast.Call) and call_name(e) in ("len", "bool") and len(e.args) == 1 and not e.keywords:
+        e = e.args[0]
+    return e
+
+
+def _atom_facts(node: ast.expr, val: bool) -> list[tuple]:
+    """('in', x, S, bool) / ('truthy', x, bool) / ('differs', a, b) implied by an atom having the value val"""
+    out: list[tuple] = []
+    if isinstance(node, ast.Compare) and len(node.ops) == 1:
+        op, left, right = node.ops[0], node.left, node.comparators[0]
+        if isinstance(op, (ast.In, ast.NotIn)):
+            return [("in", norm(left), norm(right), val == isinstance(op, ast.In))]
+        mirror = {ast.Gt: ast.Lt, ast.Lt: ast.Gt, ast.GtE: ast.LtE, ast.LtE: ast.GtE}
+        if isinstance(left, ast.Constant) and not isinstance(right, ast.Constant):
+            left, right = right, left
+            op = mirror.get(type(op), type(op))()
+        if isinstance(right, ast.Constant) and isinstance(right.value, (int, bool)):
+            c = int(right.value)
+            nonzero = {(ast.Gt, 0): True, (ast.GtE, 1): True, (ast.NotEq, 0): True, (ast.Eq, 0): False, (ast.Lt, 1): False,
+                       (ast.LtE, 0): False}.get((type(op), c))
+            if nonzero is not None:
+                out.append(("truthy", norm(_strip_len(left)), val == nonzero))
+        differs = {ast.NotEq: True, ast.Eq: False, ast.Gt: True, ast.Lt: True, ast.IsNot: True, ast.Is: False}.get(type(op))
+        if differs is not None and val == differs:
+            out.append(("differs", norm(left), norm(right)))
+        return out
+    return [("truthy", norm(_strip_len(node)), val)]
+
+
+_NAMES_CACHE: dict[str, frozenset[str]] = {}
+
+
+def _names_of(text: str) -> frozenset[str]:
+    if text not in _NAMES_CACHE:
+        try:
+            _NAMES_CACHE[text] = frozenset(n.id for n in ast.walk(ast.parse(text, mode="eval")) if isinstance(n, ast.Name))
+        except SyntaxError:
+            _NAMES_CACHE[text] = frozenset()
+    return _NAMES_CACHE[text]
+
+
+def _fact_names(fact: tuple) -> frozenset[str]:
+    out: frozenset[str] = frozenset()
+    for part in fact[1:]:
+        if isinstance(part, str):
+            out |= _names_of(part)
+    return out
+
+
+def _flat_targets(t: ast.AST) -> list[ast.AST]:
+    if isinstance(t, (ast.Tuple, ast.List)):
+        return [x for e in t.elts for x in _flat_targets(e)]
+    if isinstance(t, ast.Starred):
+        return _flat_targets(t.value)
+    return [t]
+
+
+def _root(e: ast.AST) -> str | None:
+    while isinstance(e, (ast.Attribute, ast.Subscript)):
+        e = e.value
+    return e.id if isinstance(e, ast.Name) else None
+
+
+def _binds(st: ast.AST) -> set[str]:
+    """names the statement node itself (re)binds, plus the roots of attribute / item stores (their old value is gone as well)"""
+    out: set[str] = set()
+    for n in walk_own(st):  # type: ignore[arg-type]
+        if isinstance(n, ast.Name) and isinstance(n.ctx, (ast.Store, ast.Del)):
+            out.add(n.id)
+        elif isinstance(n, (ast.Attribute, ast.Subscript)) and isinstance(n.ctx, (ast.Store, ast.Del)):
+            r = _root(n)
+            if r:
+                out.add(r)
+    if isinstance(st, ast.ExceptHandler) and st.name:
+        out.add(st.name)
+    return out
+
+
+def _binds_name(st: ast.AST, name: str) -> bool:
+    """the statement (re)binds the plain name"""
+    if isinstance(st, ast.ExceptHandler):
+        return st.name == name
+    return any(isinstance(n, ast.Name) and n.id == name and isinstance(n.ctx, (ast.Store, ast.Del)) for n in walk_own(st))  # type: ignore[arg-type]
+
+
+def _pure(e: ast.AST) -> bool:
+    if isinstance(e, ast.Name):
+        return True
+    if isinstance(e, ast.Attribute):
+        return _pure(e.value)
+    if isinstance(e, ast.Subscript):
+        return _pure(e.value) and isinstance(e.slice, (ast.Constant, ast.Name))
+    return False
+
+
+class _Effects:
+    """what one statement does to collections: (collection text, element text) pairs"""
+
+    def __init__(self, st: ast.AST) -> None:
+        self.inserts: list[tuple[str, str]] = []
+        self.deletes: list[tuple[str, str]] = []
+        self.pops: list[str] = []
+        self.pushes: list[str] = []
+        self.mutated: set[str] = set()
+        for n in walk_own(st):  # type: ignore[arg-type]
+            if isinstance(n, ast.Call) and isinstance(n.func, ast.Attribute):
+                recv, a = norm(n.func.value), n.func.attr
+                if a in _GROW or a in _SHRINK:
+                    self.mutated.add(recv)
+                if a in ("add", "append", "appendleft", "setdefault") and n.args:
+                    self.inserts.append((recv, norm(n.args[0])))
+                if a in _GROW and a != "setdefault":
+                    self.pushes.append(recv)
+                if a in ("pop", "popleft", "popitem") and len(n.args) <= 1:  # pop(key, default) need not remove anything
+                    self.pops.append(recv)
+                if a in ("pop", "remove", "discard") and n.args:
+                    self.deletes.append((recv, norm(n.args[0])))
+        if isinstance(st, (ast.Assign, ast.AugAssign, ast.AnnAssign)):
+            tgts = st.targets if isinstance(st, ast.Assign) else [st.target]
+            for t in [x for tt in tgts for x in _flat_targets(tt)]:
+                if isinstance(t, ast.Subscript):
+                    self.inserts.append((norm(t.value), norm(t.slice)))
+                    self.mutated.add(norm(t.value))
+            if isinstance(st, ast.Assign) and len(st.targets) == 1 and isinstance(st.targets[0], ast.Name):
+                nm, v = st.targets[0].id, st.value
+                if isinstance(v, ast.BinOp) and isinstance(v.op, (ast.BitOr, ast.Add)) and norm(v.left) == nm \
+                        and isinstance(v.right, (ast.Set, ast.List)) and len(v.right.elts) == 1:
+                    self.inserts.append((nm, norm(v.right.elts[0])))
+                elif isinstance(v, (ast.Set, ast.List)) and len(v.elts) == 2 and isinstance(v.elts[0], ast.Starred) and norm(v.elts[0].value) == nm:
+                    self.inserts.append((nm, norm(v.elts[1])))
+            if isinstance(st, ast.AugAssign) and isinstance(st.target, ast.Name):
+                self.mutated.add(st.target.id)
+                if isinstance(st.op, (ast.Add, ast.BitOr)):
+                    self.pushes.append(st.target.id)
+                    if isinstance(st.value, (ast.Set, ast.List)) and len(st.value.elts) == 1:
+                        self.inserts.append((st.target.id, norm(st.value.elts[0])))
+        if isinstance(st, ast.Delete):
+            for t in st.targets:
+                if isinstance(t, ast.Subscript):
+                    self.deletes.append((norm(t.value), norm(t.slice)))
+                    self.mutated.add(norm(t.value))
+
+
+class _Flow:
+    """the statement CFG of one function with labelled edges"""
+
+    def __init__(self, f: FuncInfo, ix: Any) -> None:
+        self.f = f
+        self.ix = ix
+        self.cfg = CFG(f.node)
+        self._facts: dict[tuple[int, bool], frozenset] = {}
+        self._eff: dict[int, _Effects] = {}
+
+    def out(self, a: object) -> list[tuple[object, bool | None]]:
+        res: list[tuple[object, bool | None]] = []
+        for b in self.cfg.succ.get(a, ()):
+            lab: bool | None = None
+            if isinstance(a, (ast.If, ast.While)) and not isinstance(b, ast.ExceptHandler):
+                lab = b is a.body[0]
+                const = _const_truth(a.test)
+                if const is not None and lab != const:
+                    continue  # `while True:` is never left through its test
+            res.append((b, lab))
+        return res
+
+    def facts(self, a: object, lab: bool | None) -> frozenset:
+        if lab is None or not isinstance(a, (ast.If, ast.While)):
+            return frozenset()
+        k = (id(a), lab)
+        if k not in self._facts:
+            out: set[tuple] = set()
+            for node, val in _implied(a.test, lab):
+                out |= set(_atom_facts(node, val))
+            self._facts[k] = frozenset(out)
+        return self._facts[k]
+
+    def effects(self, st: ast.AST) -> _Effects:
+        if id(st) not in self._eff:
+            self._eff[id(st)] = _Effects(st)
+        return self._eff[id(st)]
+
+    @staticmethod
+    def inside(st: ast.AST) -> set[int]:
+        """ids of the CFG nodes lexically inside the body of a compound statement"""
+        return {id(n) for s in st.body for n in ast.walk(s) if isinstance(n, (ast.stmt, ast.ExceptHandler))}  # type: ignore[attr-defined]
+
+    def exits(self, st: ast.AST) -> list[tuple[object, bool | None, object]]:
+        """edges on which control leaves a statement for good: for a `for` loop the edges from its header or body to a node outside"""
+        if isinstance(st, (ast.For, ast.AsyncFor)):
+            ins = self.inside(st)
+            srcs = [st] + [n for n in self.cfg.stmts() if id(n) in ins] + [n for n in self.cfg.nodes if isinstance(n, ast.ExceptHandler) and id(n) in ins]
+            return [(a, lab, b) for a in srcs for b, lab in self.out(a) if b is not st and id(b) not in ins]
+        return [(st, lab, b) for b, lab in self.out(st)]
+
+    def reach(self, edges0: list[tuple[object, bool | None, object]], targets: list[object], stop_edge: Any = None, stop_node: Any = None,
+              inside: set[int] | None = None) -> list[object]:
+        """targets reached by a path that starts with one of edges0, stays inside the round, crosses no stop edge and passes no stop node"""
+        hits: list[object] = []
+        work = [b for a, lab, b in edges0 if not (stop_edge and stop_edge(a, lab))]
+        seen: set[int] = set()
+        while work:
+            n = work.pop()
+            if id(n) in seen:
+                continue
+            seen.add(id(n))
+            if any(n is t for t in targets):
+                hits.append(n)
+                continue
+            if inside is not None and id(n) not in inside:
+                continue
+            if stop_node and stop_node(n):
+                continue
+            for b, lab in self.out(n):
+                if not (stop_edge and stop_edge(n, lab)):
+                    work.append(b)
+        return hits
+
+
+def _close(st: frozenset) -> frozenset:
+    """membership facts hold for every live alias of the tested expression"""
+    al = [(f[1], f[2]) for f in st if f[0] == "alias"]
+    if not al:
+        return st
+    out = set(st)
+    for _ in range(2):
+        for f in list(out):
+            if f[0] != "in":
+                continue
+            for a, b in al:
+                if f[1] == a:
+                    out.add(("in", b, f[2], f[3]))
+                elif f[1] == b:
+                    out.add(("in", a, f[2], f[3]))
+    return frozenset(out)
+
+
+class _Round:
+    def __init__(self, fl: _Flow, loop: ast.While | None = None, calls: list[tuple[ast.stmt, ast.Call]] | None = None) -> None:
+        self.fl = fl
+        self.loop = loop
+        self.calls = calls or []
+        if loop is not None:
+            self.entry = [(loop, True, loop.body[0])] if _const_truth(loop.test) is not False else []
+            self.targets: list[object] = [loop]
+            self.inside: set[int] | None = fl.inside(loop)
+            self.nodes: list[ast.AST] = list(loop.body)
+            self.tests: list[ast.AST] = [loop]
+        else:
+            self.entry = [(_ENTRY, None, b) for b, _ in fl.out(_ENTRY)]
+            self.targets = [st for st, _ in self.calls]
+            self.inside = None
+            self.nodes = list(fl.f.node.body)
+            self.tests = []
+        self.own = _walk_all(self.nodes)
+        self.stmts = [n for n in self.own if isinstance(n, (ast.stmt, ast.ExceptHandler))]
+        self.tests += [n for n in self.stmts if isinstance(n, (ast.If, ast.While))]
+        self.what = "loop" if loop is not None else "recursion"
+
+    def binders(self, name: str) -> list[ast.AST]:
+        return [s for s in self.stmts if _binds_name(s, name)]
+
+    def test_edges(self, pred: Any) -> list[tuple[object, bool | None, object]]:
+        return [(a, lab, b) for a in self.tests for b, lab in self.fl.out(a) if lab is not None and pred(self.fl.facts(a, lab))]
+
+    def lexically_repeated(self, st: ast.AST) -> bool:
+        """st sits inside a for / while nested in the round (it may run more than once per round)"""
+        for n in self.stmts:
+            if isinstance(n, (ast.For, ast.AsyncFor, ast.While)) and n is not st and n is not self.loop:
+                if any(x is st for x in ast.walk(n)):
+                    return True
+        return False
+
+
+def _calls_function(c: ast.Call, f: FuncInfo) -> bool:
+    cn = call_name(c)
+    last = cn.rsplit(".", 1)[-1]
+    head = cn.rsplit(".", 1)[0] if "." in cn else ""
+    if last != f.name:
+        return False
+    if f.cls is None:
+        return head == ""
+    return head in ("self", "cls", f.cls.name)
+
+
+def _region_helpers(ix: Any, f: FuncInfo) -> dict[str, FuncInfo]:
+    from ..astutil import region
+
+    out: dict[str, FuncInfo] = {}
+    for h in region(ix, f)[1:] if ix is not None else []:
+        out.setdefault(h.name, h)
+    return out
+
+
+def _helper_of(ix: Any, f: FuncInfo, c: ast.Call) -> FuncInfo | None:
+    cn = call_name(c)
+    last = cn.rsplit(".", 1)[-1]
+    head = cn.rsplit(".", 1)[0] if "." in cn else ""
+    if head not in ("", "self", "cls") and not head[:1].isupper():
         return None
-    # (b) removal from a map before recursing (visited by deletion)
-    if names == {"_propogate_removal"}:
-        f = fs[0]
-        cfg = CFG(f.node)
-        rec_calls = [s for s in cfg.stmts() if stmt_calls(s, "_propogate_removal")]
-        dels = [s for s in cfg.stmts() if isinstance(s, ast.Delete) and "classes_by_reference" in norm(s)]
-        guard = [s for s in cfg.stmts() if isinstance(s, ast.If) and " in " in norm(s.test) and "classes_by_reference" in norm(s.test)]
-        if rec_calls and dels and guard and all(cfg.is_dominated_by(r, lambda n: n in dels) and cfg.is_dominated_by(r, lambda n: n in guard)
-                                                 for r in rec_calls):
-            return "visited-by-deletion (recursion only under `root in classes_by_reference`, after deleting root)"
+    return _region_helpers(ix, f).get(last)
+
+
+def _param_for(h: FuncInfo, c: ast.Call, pos: int | str) -> str | None:
+    """name of the parameter of h that receives the positional (int) / keyword (str) argument of the call"""
+    params = [p.arg for p in h.params]
+    if isinstance(pos, str):
+        return pos if pos in params else None
+    off = 1 if h.kind in ("method", "classmethod") and isinstance(c.func, ast.Attribute) else 0
+    n_pos = len(h.node.args.posonlyargs) + len(h.node.args.args)
+    return params[off + pos] if off + pos < n_pos else None
+
+
+def _arg_for(h: FuncInfo, c: ast.Call, param: str) -> ast.expr | None:
+    for k in c.keywords:
+        if k.arg == param:
+            return k.value
+    for i, a in enumerate(c.args):
+        if _param_for(h, c, i) == param:
+            return a
+    return None
+
+
+def _mut_kinds(ix: Any, f: FuncInfo, nodes: list[ast.AST], coll: ast.expr, depth: int = 0, skip: set[str] | None = None) -> set[str]:
+    """what the code does to a collection (a local name, or an attribute identified by its attribute name): 'grow', 'shrink',
+    'rebind' (the name / attribute is given another object), 'escape' (handed on in a way that is not followed).  A function of the
+    repository that receives the collection is followed (two levels) through the parameter that receives it."""
+    kinds: set[str] = set()
+    is_name = isinstance(coll, ast.Name)
+    if not is_name and not isinstance(coll, ast.Attribute):
+        return {"escape"}
+    skip = skip if skip is not None else set()
+
+    def m(e: ast.AST) -> bool:
+        if is_name:
+            return isinstance(e, ast.Name) and e.id == coll.id  # type: ignore[attr-defined]
+        return isinstance(e, ast.Attribute) and e.attr == coll.attr  # type: ignore[attr-defined]
+
+    croot = _root(coll)
+    for n in _walk_all(nodes):
+        if isinstance(n, ast.Call):
+            if isinstance(n.func, ast.Attribute) and m(n.func.value):
+                if n.func.attr in _GROW:
+                    kinds.add("grow")
+                elif n.func.attr in _SHRINK:
+                    kinds.add("shrink")
+                continue
+            args: list[tuple[int | str, ast.expr]] = [(i, a) for i, a in enumerate(n.args)] + [(k.arg or "**", k.value) for k in n.keywords]
+            passed = [(pos, a) for pos, a in args if m(a) or (not is_name and isinstance(a, ast.Name) and a.id == croot and croot not in ("self", "cls"))]
+            if not is_name and any(k.arg == coll.attr for k in n.keywords):  # type: ignore[attr-defined]
+                kinds.add("rebind")  # evolve(obj, attr=...)
+            if not passed:
+                continue
+            h = _helper_of(ix, f, n) if ix is not None else None
+            last = call_name(n).rsplit(".", 1)[-1]
+            if h is None and _calls_function(n, f):
+                h = f
+            # the callee: a helper of the region, the function itself, else any function of the repository with that name; code outside
+            # the repository (builtins, libraries, constructors) changes our collection only through the methods tracked above
+            callees = [h] if h is not None else [g for g in ix.all_functions if g.name == last] if ix is not None and last not in _READONLY else []
+            if len(callees) > 12:
+                kinds.add("escape")
+                continue
+            for h in callees:
+                if h.qual in skip or depth >= 2:
+                    continue
+                if is_name:
+                    for pos, a in passed:
+                        p = _param_for(h, n, pos)
+                        if p is None:
+                            kinds.add("escape")
+                        elif h is not f or p != coll.id:  # type: ignore[attr-defined]
+                            kinds |= _mut_kinds(ix, h, list(h.node.body), ast.Name(id=p, ctx=ast.Load()), depth + 1, skip | {f.qual}) - {"rebind"}
+                elif h is not f:
+                    kinds |= _mut_kinds(ix, h, list(h.node.body), coll, depth + 1, skip | {f.qual})
+        elif isinstance(n, (ast.Assign, ast.AnnAssign, ast.AugAssign, ast.Delete, ast.For, ast.AsyncFor, ast.comprehension, ast.NamedExpr)) \
+                or isinstance(n, ast.withitem):
+            if isinstance(n, ast.Assign):
+                tgts = n.targets
+            elif isinstance(n, ast.Delete):
+                tgts = n.targets
+            elif isinstance(n, ast.withitem):
+                tgts = [n.optional_vars] if n.optional_vars is not None else []
+            else:
+                tgts = [n.target]
+            if isinstance(n, ast.AnnAssign) and n.value is None:
+                continue
+            for t in [x for tt in tgts for x in _flat_targets(tt)]:
+                if m(t):
+                    if isinstance(n, ast.AugAssign):
+                        kinds.add("grow" if isinstance(n.op, (ast.Add, ast.BitOr)) else "shrink")
+                    elif is_name and isinstance(n, (ast.Assign, ast.AnnAssign)) and _superset_of(n.value, coll.id):  # type: ignore[attr-defined]
+                        kinds.add("grow")  # `s = s or set()`, `s = s | {x}`: still holds everything it held
+                    else:
+                        kinds.add("rebind")
+                elif isinstance(t, ast.Subscript) and m(t.value):
+                    kinds.add("shrink" if isinstance(n, ast.Delete) else "grow")
+    return kinds
+
+
+class _Scope:
+    """the code of one round (and of the private helpers it calls) as far as it touches a given collection"""
+
+    def __init__(self, rnd: _Round) -> None:
+        self.rnd = rnd
+        self._k: dict[str, set[str]] = {}
+
+    def kinds(self, text: str) -> set[str]:
+        if text not in self._k:
+            try:
+                coll = ast.parse(text, mode="eval").body
+            except SyntaxError:
+                self._k[text] = {"escape"}
+                return self._k[text]
+            fl = self.rnd.fl
+            k = _mut_kinds(fl.ix, fl.f, self.rnd.nodes, coll)
+            r = _root(coll)
+            if isinstance(coll, ast.Attribute) and r is not None and r not in ("self", "cls") and self.rnd.binders(r):
+                k.add("rebind")  # the object that carries the collection is replaced during the round
+            if self.rnd.loop is None and not self._persists(coll):
+                k.add("rebind")
+            self._k[text] = k
+        return self._k[text]
+
+    def _persists(self, coll: ast.expr) -> bool:
+        """recursion: the next activation sees the same collection - it hangs off `self`, or off a parameter handed on unchanged"""
+        r = _root(coll)
+        f = self.rnd.fl.f
+        if r is None:
+            return False
+        if r in ("self", "cls"):
+            return all(isinstance(c.func, ast.Attribute) and norm(c.func.value) == r for _, c in self.rnd.calls)
+        if r not in [p.arg for p in f.params]:
+            return False
+        if isinstance(coll, ast.Name) and not all(isinstance(s, (ast.Assign, ast.AnnAssign)) and _superset_of(s.value, r) for s in self.rnd.binders(r)):
+            return False
+        for _, c in self.rnd.calls:
+            a = _arg_for(f, c, r)
+            if not (isinstance(a, ast.Name) and a.id == r):
+                return False
+        return True
+
+    def only_grows(self, text: str) -> bool:
+        return not (self.kinds(text) & {"shrink", "rebind", "escape"})
+
+    def only_shrinks(self, text: str) -> bool:
+        return not (self.kinds(text) & {"grow", "rebind", "escape"})
+
+
+def _walk_paths(fl: _Flow, edges0: list, transfer: Any, targets: list[object], inside: set[int] | None) -> list[object]:
+    """path-sensitive walk: the state is the set of facts (test outcomes, aliases) that hold; `transfer` returns the state after a
+    statement or None when the path is satisfied.  Returns the targets reached by an unsatisfied path."""
+    hits: list[object] = []
+    work = [(b, _close(fl.facts(a, lab))) for a, lab, b in edges0]
+    seen: set[tuple[int, frozenset]] = set()
+    while work:
+        n, st = work.pop()
+        k = (id(n), st)
+        if k in seen:
+            continue
+        if len(seen) > 20000:
+            return hits + targets[:1]  # too many path states to decide: not proven
+        seen.add(k)
+        if any(n is t for t in targets):
+            hits.append(n)
+            continue
+        if inside is not None and id(n) not in inside:
+            continue
+        if not isinstance(n, (ast.stmt, ast.ExceptHandler)):
+            continue
+        st2 = transfer(n, st)
+        if st2 is None:
+            continue
+        for b, lab in fl.out(n):
+            work.append((b, _close(st2 | fl.facts(n, lab))))
+    return hits
+
+
+def _event_transfer(fl: _Flow, scope: _Scope, queue: str | None, found: list[str], near: list[str] | None = None) -> Any:
+    """a BOUNDED EVENT on a path: an element is inserted into a collection that only grows after the path has passed a test that it
+    was not in it (fresh element of a finite universe), or a key is deleted from a map that only shrinks after the path has passed a
+    test that it was in it.  Either can happen only finitely often."""
+
+    def transfer(n: ast.AST, st: frozenset) -> frozenset | None:
+        eff = fl.effects(n)
+        for coll, x in eff.inserts:
+            if ("in", x, coll, False) in st:
+                if scope.only_grows(coll):
+                    found.append(f"fresh element: `{x}` enters `{coll}` only after the test that it was not in it; `{coll}` only grows")
+                    return None
+                if near is not None:
+                    near.append(f"`{x}` enters `{coll}` after the test that it was not in it, but `{coll}` does not only grow from round to "
+                                f"round ({_kinds_text(scope.kinds(coll) & {'shrink', 'rebind', 'escape'})}): an element can come again")
+        for coll, x in eff.deletes:
+            if ("in", x, coll, True) in st:
+                if scope.only_shrinks(coll):
+                    found.append(f"removal before repeating: `{x}` is deleted from `{coll}` after the test that it was in it; nothing is "
+                                 f"added to `{coll}`")
+                    return None
+                if near is not None:
+                    near.append(f"`{x}` is deleted from `{coll}` after the test that it was in it, but `{coll}` does not only shrink from "
+                                f"round to round ({_kinds_text(scope.kinds(coll) & {'grow', 'rebind', 'escape'})}): a key can come again")
+        if queue is not None and queue in eff.pops:
+            return None
+        bound = _binds(n)
+        st2 = frozenset(f for f in st if not (_fact_names(f) & bound) and not (f[0] == "in" and f[2] in eff.mutated))
+        if isinstance(n, (ast.Assign, ast.AnnAssign)) and n.value is not None and _pure(n.value):
+            tgts = n.targets if isinstance(n, ast.Assign) else [n.target]
+            if len(tgts) == 1 and isinstance(tgts[0], ast.Name) and tgts[0].id not in _names_of(norm(n.value)):
+                st2 = st2 | {("alias", tgts[0].id, norm(n.value))}
+        return st2
+
+    return transfer
+
+
+def _kinds_text(kinds: set[str]) -> str:
+    words = {"grow": "elements are added to it", "shrink": "elements are removed from it", "rebind": "it is replaced by another object",
+             "escape": "it is handed on in a way that is not followed"}
+    return ", ".join(words[k] for k in sorted(kinds))
+
+
+def _bounded_events(rnd: _Round, why: _Why) -> str | None:
+    """(1) fresh element of a finite universe and (4) removal before repeating: every path of the round that leads to a repetition
+    passes a bounded event.  Work-queue form of the same arguments: every path back to the loop head takes an element off a queue or
+    passes a bounded event, and elements are put on the queue only after a bounded event - between two events the queue only drains."""
+    fl = rnd.fl
+    scope = _Scope(rnd)
+    found: list[str] = []
+    near: list[str] = []
+    hits = _walk_paths(fl, rnd.entry, _event_transfer(fl, scope, None, found, near), rnd.targets, rnd.inside)
+    if not hits:
+        if found:
+            return "; ".join(sorted(set(found)))
+        return f"the {rnd.what} never repeats: no path leads from its start to a repetition"
+    tested = any(fact[0] == "in" for a in rnd.tests for lab in (True, False) for fact in fl.facts(a, lab))
+    why.add(3 if found else 2 if tested else 0,
+            f"a path through the {rnd.what} repeats without inserting an element that was tested to be new into a collection that only "
+            "grows, and without deleting a key that was tested to be present from a map that only shrinks")
+    for t in sorted(set(near)):
+        why.add(4, t)
+    if rnd.loop is not None:
+        queues = sorted({q for s in rnd.stmts for q in fl.effects(s).pops if q.isidentifier()})
+        for q in queues:
+            if scope.kinds(q) & {"rebind", "escape"}:
+                continue
+            found2: list[str] = []
+            if _walk_paths(fl, rnd.entry, _event_transfer(fl, scope, q, found2), rnd.targets, rnd.inside):
+                why.add(2, f"a path repeats without taking an element off `{q}` and without a bounded event")
+                continue
+            pushes = [s for s in rnd.stmts if q in fl.effects(s).pushes]
+            found3: list[str] = []
+            if pushes and _walk_paths(fl, rnd.entry, _event_transfer(fl, scope, None, found3), list(pushes), rnd.inside):
+                why.add(4, f"elements are put on the work queue `{q}` on a path that has not passed a visited test (insertion of an element "
+                           "tested to be new / deletion of a key tested to be present): the queue need not drain")
+                continue
+            return (f"work queue `{q}`: every round takes an element off it; elements are added only after "
+                    + ("; ".join(sorted(set(found3))) if found3 else "nothing (it only drains)"))
+    return None
+
+
+def _snapshot_of(v: ast.expr | None, a_text: str) -> bool:
+    """v evaluates to the current value of the expression a_text (or a copy of it)"""
+    if v is None:
+        return False
+    if norm(v) == a_text:
+        return True
+    if isinstance(v, ast.Call) and len(v.args) == 1 and not v.keywords and call_name(v) in ("set", "frozenset", "list", "tuple", "sorted", "copy", "copy.copy"):
+        return norm(v.args[0]) == a_text
+    if isinstance(v, ast.Call) and isinstance(v.func, ast.Attribute) and v.func.attr == "copy" and not v.args:
+        return norm(v.func.value) == a_text
+    return False
+
+
+def _superset_of(v: ast.expr | None, p: str) -> bool:
+    """v evaluates to a collection that contains everything the name p holds (None / empty count as nothing)"""
+    if v is None:
+        return False
+    if isinstance(v, ast.Name):
+        return v.id == p
+    if isinstance(v, ast.BoolOp) and isinstance(v.op, ast.Or):
+        return _superset_of(v.values[0], p)
+    if isinstance(v, ast.BinOp) and isinstance(v.op, (ast.BitOr, ast.Add)):
+        return _superset_of(v.left, p) or _superset_of(v.right, p)
+    if isinstance(v, ast.IfExp):
+        return p in _names_of(norm(v.test)) and (_superset_of(v.body, p) or _superset_of(v.orelse, p))
+    if isinstance(v, ast.Call):
+        if isinstance(v.func, ast.Attribute) and v.func.attr in ("copy", "union") and _superset_of(v.func.value, p):
+            return True
+        if call_name(v) in ("set", "list", "frozenset", "copy", "copy.copy", "deepcopy", "copy.deepcopy") and len(v.args) == 1:
+            return _superset_of(v.args[0], p)
+    if isinstance(v, (ast.Set, ast.List)):
+        return any(isinstance(e, ast.Starred) and _superset_of(e.value, p) for e in v.elts)
+    return False
+
+
+def _growing_set(rnd: _Round, why: _Why) -> str | None:
+    """(2) growing bounded set with change test: the round repeats only under a test that a set (or its size) differs from what the
+    previous-round variable holds, that variable takes the set's value before the repetition, the set of the next round starts from
+    it, and nothing in the region removes elements: each repetition strictly enlarges a subset of a finite universe."""
+    fl = rnd.fl
+    f = fl.f
+    cands: set[tuple[str, str]] = set()
+    for a in rnd.tests:
+        for lab in (True, False):
+            for fact in fl.facts(a, lab):
+                if fact[0] == "differs":
+                    cands |= {(fact[1], fact[2]), (fact[2], fact[1])}
+    why.add(0, "no test compares a collection with its value at the previous round")
+    params = [p.arg for p in f.params]
+    import keyword
+
+    for a_text, p in sorted(cands):
+        if not p.isidentifier() or keyword.iskeyword(p):
+            continue
+        try:
+            a_expr = _strip_len(ast.parse(a_text, mode="eval").body)
+        except SyntaxError:
+            continue
+        if not isinstance(a_expr, ast.Name) or a_expr.id == p:
+            continue
+        m = a_expr.id
+
+        def is_test(facts: frozenset, a_text: str = a_text, p: str = p) -> bool:
+            return ("differs", a_text, p) in facts or ("differs", p, a_text) in facts
+
+        if fl.reach(rnd.entry, rnd.targets, stop_edge=lambda a, lab: is_test(fl.facts(a, lab)), inside=rnd.inside):
+            why.add(1, f"the {rnd.what} can repeat without passing the test that `{a_text}` differs from `{p}`")
+            continue
+        if rnd.loop is not None:
+            assigns = rnd.binders(p)
+            good = [s for s in assigns if isinstance(s, (ast.Assign, ast.AnnAssign)) and _snapshot_of(s.value, a_text)
+                    and all(isinstance(t, ast.Name) for t in (s.targets if isinstance(s, ast.Assign) else [s.target]))]
+            if not assigns or len(good) != len(assigns):
+                why.add(3, f"the loop repeats only when `{a_text}` differs from `{p}`, but `{p}` is not (only) given the value of "
+                           f"`{a_text}` inside the loop: it does not hold the previous round's value")
+                continue
+            tedges = rnd.test_edges(is_test)
+            if fl.reach(tedges, [a for a, _, _ in tedges], stop_node=lambda n: any(n is s for s in good), inside=rnd.inside | {id(rnd.loop)}):
+                why.add(3, f"`{p}` does not take the value of `{a_text}` on every path from one change test to the next")
+                continue
+            binds_m = rnd.binders(m)
+        else:
+            if p not in params or rnd.binders(p):
+                why.add(2, f"`{p}` is not a parameter that keeps the value handed in by the previous activation")
+                continue
+            if not all(_snapshot_of(_arg_for(f, c, p), a_text) for _, c in rnd.calls):
+                why.add(3, f"a recursive call does not hand `{a_text}` on as `{p}`")
+                continue
+            binds_m = rnd.binders(m)
+            if not binds_m:
+                continue
+        if not all(isinstance(s, (ast.Assign, ast.AnnAssign)) and _superset_of(s.value, p) for s in binds_m):
+            why.add(4, f"the {rnd.what} repeats only when `{a_text}` differs from `{p}`, but `{m}` does not start the round from the "
+                       f"previous value `{p}`: across rounds it is not monotone")
+            continue
+        shr = {nm for nm in (m, p) if _mut_kinds(fl.ix, f, rnd.nodes, ast.Name(id=nm, ctx=ast.Load())) & {"shrink", "escape"}}
+        if shr:
+            why.add(5, f"the {rnd.what} repeats only when `{a_text}` differs from `{p}`, but elements can be removed from "
+                       f"`{'`, `'.join(sorted(shr))}` in the region (or it is handed to code that is not analysed): the set is not monotone")
+            continue
+        return (f"growing bounded set: the {rnd.what} repeats only when `{a_text}` differs from the previous round's `{p}`; `{m}` "
+                "only grows")
+    return None
+
+
+def _iter_source(e: ast.expr) -> str | None:
+    """the name of the list a for loop makes one pass over"""
+    for _ in range(3):
+        if isinstance(e, ast.Name):
+            return e.id
+        if isinstance(e, ast.Call) and len(e.args) == 1 and not e.keywords and call_name(e) in ("list", "tuple", "sorted", "reversed", "iter", "enumerate"):
+            e = e.args[0]
+        elif isinstance(e, ast.Call) and isinstance(e.func, ast.Attribute) and e.func.attr == "copy" and not e.args:
+            e = e.func.value
+        elif isinstance(e, ast.Subscript) and isinstance(e.slice, ast.Slice) and e.slice.lower is None and e.slice.upper is None and e.slice.step is None:
+            e = e.value
+        else:
+            return None
+    return None
+
+
+def _elementwise_of(v: ast.expr | None, r: str) -> bool:
+    """v is the list r itself, a copy, or an element-wise image / selection of it (never longer than r)"""
+    if v is None:
+        return False
+    if _iter_source(v) == r and not (isinstance(v, ast.Call) and call_name(v) == "enumerate"):
+        return True
+    if isinstance(v, (ast.ListComp, ast.GeneratorExp)) and len(v.generators) == 1:
+        return _iter_source(v.generators[0].iter) == r
+    if isinstance(v, ast.Call) and call_name(v) in ("list", "tuple") and len(v.args) == 1:
+        return _elementwise_of(v.args[0], r)
+    return False
+
+
+def _empty_list(v: ast.expr | None) -> bool:
+    return (isinstance(v, ast.List) and not v.elts) or (isinstance(v, ast.Call) and call_name(v) in ("list", "deque", "collections.deque")
+                                                      and not v.args and not v.keywords)
+
+
+def _falsy_const(v: ast.expr | None) -> bool:
+    return isinstance(v, ast.Constant) and (v.value is False or (isinstance(v.value, int) and v.value == 0))
+
+
+def _truthy_mark(st: ast.AST) -> str | None:
+    """the name a statement makes truthy / non-zero: `g = True`, `g = 1`, `g += 1`, `g = g + 1`, `g |= True`"""
+    pos = lambda v: isinstance(v, ast.Constant) and isinstance(v.value, (bool, int)) and v.value > 0  # noqa: E731
+    if isinstance(st, ast.Assign) and len(st.targets) == 1 and isinstance(st.targets[0], ast.Name):
+        g = st.targets[0].id
+        if pos(st.value):
+            return g
+        if isinstance(st.value, ast.BinOp) and isinstance(st.value.op, ast.Add) and norm(st.value.left) == g and pos(st.value.right):
+            return g
+    if isinstance(st, ast.AugAssign) and isinstance(st.target, ast.Name) and isinstance(st.op, (ast.Add, ast.BitOr)) and pos(st.value):
+        return st.target.id
+    return None
+
+
+class _Pass:
+    """one pass `for item in work` over a work list, in the function whose flow is fl.  `entry`: the edges from which the pass is
+    reached again - the edges that leave the previous pass when the round is a loop body, the function's entry when every round is a
+    new activation (recursion, or the pass lives in a helper).  What the variables hold before the FIRST pass costs at most one extra
+    round and is not looked at.  `stmts`: the statements of the round in this function."""
+
+    def __init__(self, fl: _Flow, loop: ast.For, entry: list, inside: set[int] | None, stmts: list[ast.AST]) -> None:
+        self.fl, self.loop, self.entry, self.inside, self.stmts = fl, loop, entry, inside, stmts
+        self.in_f = fl.inside(loop)
+        self.body = [s for s in stmts if id(s) in self.in_f]
+        self.targets = {x.id for x in ast.walk(loop.target) if isinstance(x, ast.Name)}
+        self.iteration_locals = {nm for s in self.body for nm in _binds(s)} | self.targets
+
+    def after(self, s: ast.AST) -> set[int]:
+        """statements that can run after s within the same iteration"""
+        out: set[int] = set()
+        for b in self.fl.cfg.succ.get(s, ()):
+            if b is not self.loop:
+                out |= {id(x) for x in self.fl.cfg.reachable_from(b, avoid=lambda x: x is self.loop)}
+        return out
+
+    def appends(self, r: str) -> list[tuple[ast.AST, ast.Call]]:
+        return [(s, c) for s in self.body for c in walk_own(s)  # type: ignore[arg-type]
+                if isinstance(c, ast.Call) and isinstance(c.func, ast.Attribute) and c.func.attr == "append" and norm(c.func.value) == r]
+
+    def marks(self, g: str) -> list[ast.AST]:
+        return [s for s in self.body if _truthy_mark(s) == g]
+
+    def requeue_list(self, r: str) -> str | None:
+        """why r is not a re-queue list of this pass (None: it is): bound to a new empty list on every path from one pass to the next and
+        bound nowhere else, changed only by `append` inside the pass, at most one append on any path through one iteration, and what
+        is appended is built from the item of the iteration (and values computed in it)"""
+        sites = self.appends(r)
+        if not sites:
+            return f"the pass appends nothing to `{r}`"
+        binders = [s for s in self.stmts if _binds_name(s, r)]
+        resets = [s for s in binders if isinstance(s, (ast.Assign, ast.AnnAssign)) and _empty_list(s.value) and id(s) not in self.in_f]
+        if not resets or len(resets) != len(binders):
+            return f"`{r}` is not (only) bound to a new empty list before the pass"
+        if self.fl.reach(self.entry, [self.loop], stop_node=lambda n: any(n is s for s in resets), inside=self.inside):
+            return f"`{r}` is not emptied on every path from one pass to the next: it accumulates across rounds"
+        other = [s for s in self.stmts if r in self.fl.effects(s).mutated and not any(s is a for a, _ in sites)]
+        if other or any(len([1 for a2, _ in sites if a2 is a]) > 1 for a, _ in sites):
+            return f"`{r}` is changed by more than the one `append` per item"
+        if any(id(b) in self.after(a) for a, _ in sites for b, _ in sites):
+            return f"an item can be appended to `{r}` more than once in one iteration"
+        for _, c in sites:
+            names = _names_of(norm(c.args[0])) if len(c.args) == 1 else frozenset()
+            if not (names & self.targets) or not (names <= self.iteration_locals):
+                return f"`{r}` receives `{norm(c.args[0]) if c.args else ''}`, which is not built from the item of the current pass"
         return None
-    # (c) structural recursion on the finite document tree / property tree: every function of the cycle takes the sub-object
-    #     it recurses on from an attribute / element of one of its own parameters
-    ok = True
+
+    def indicator(self, g: str) -> str | None:
+        """why g is not a progress indicator of this pass (None: it is): reset to False / 0 on every path from one pass to the next,
+        made truthy only inside the pass, bound nowhere else"""
+        ms = self.marks(g)
+        if not ms:
+            return f"the pass never sets `{g}`"
+        binders = [s for s in self.stmts if _binds_name(s, g)]
+        resets = [s for s in binders if isinstance(s, (ast.Assign, ast.AnnAssign)) and _falsy_const(s.value) and id(s) not in self.in_f]
+        if len(resets) + len(ms) != len(binders):
+            return f"the progress indicator `{g}` is also set outside the pass, or to something that is not a constant"
+        if not resets or self.fl.reach(self.entry, [self.loop], stop_node=lambda n: any(n is s for s in resets), inside=self.inside):
+            return f"the progress indicator `{g}` is not reset on every path from one pass to the next: it can report the progress of an earlier round"
+        return None
+
+    def both(self, g: str, r: str) -> str | None:
+        for a, _ in self.appends(r):
+            for m_ in self.marks(g):
+                if m_ is a or id(m_) in self.after(a) or id(a) in self.after(m_):
+                    return f"on one path through an iteration the item is appended to `{r}` and `{g}` is set: an item can be re-queued and still count as progress"
+        return None
+
+
+def _progress_rounds(rnd: _Round, why: _Why) -> str | None:
+    """(3) progress rounds over a shrinking work list.  The pass (`for item in work`) lives in the round itself or in a private helper
+    of the region that receives the work list and returns (.., re-queue list, .., indicator, ..).  Roles: the re-queue list is what
+    the next work list is made of (element-wise at most), the indicator is what the tests on the way to the repetition look at.
+    The round repeats only on a path that has passed a test that the indicator of THIS pass is truthy / non-zero; an item that
+    counted as progress is never re-queued, no item is re-queued twice: each repeated round works on a strictly shorter list."""
+    fl = rnd.fl
+    f = fl.f
+    ix = fl.ix
+    why.add(0, "no pass over a work list whose progress decides whether the round repeats")
+    params = [p.arg for p in f.params]
+    for node in rnd.stmts:
+        if rnd.lexically_repeated(node):
+            continue
+        # -- the pass and its work list
+        helper: FuncInfo | None = None
+        if isinstance(node, (ast.For, ast.AsyncFor)):
+            w = _iter_source(node.iter)
+            if w is None:
+                continue
+            works = [(w, None, None)]
+        elif isinstance(node, ast.Assign) and isinstance(node.value, ast.Call) and len(node.targets) == 1 \
+                and isinstance(node.targets[0], ast.Tuple) and all(isinstance(e, ast.Name) for e in node.targets[0].elts):
+            helper = _helper_of(ix, f, node.value) if ix is not None else None
+            if helper is None or helper is f:
+                continue
+            hown = [n for n in _walk_all(list(helper.node.body)) if isinstance(n, (ast.stmt, ast.ExceptHandler))]
+            works = []
+            for p in [p.arg for p in helper.params]:
+                a = _arg_for(helper, node.value, p)
+                if not isinstance(a, ast.Name) or any(_binds_name(x, p) for x in hown):
+                    continue
+                for lp in hown:
+                    if isinstance(lp, (ast.For, ast.AsyncFor)) and _iter_source(lp.iter) == p and not any(
+                            isinstance(o, (ast.For, ast.AsyncFor, ast.While)) and o is not lp and any(x is lp for x in ast.walk(o)) for o in hown):
+                        works.append((a.id, p, lp))
+        else:
+            continue
+        for w, hparam, hloop in works:
+            # -- roles in the driver: what the next work list is made of, what decides the repetition
+            if rnd.loop is not None:
+                hand = rnd.binders(w)
+                srcs = [s.value for s in hand if isinstance(s, (ast.Assign, ast.AnnAssign))]
+            else:
+                hand = []
+                srcs = [_arg_for(f, c, w) for _, c in rnd.calls]
+            lists = sorted({r for v in srcs for r in (_names_of(norm(v)) if v is not None else ()) if _elementwise_of(v, r)})
+            if helper is not None and rnd.loop is not None and [s for s in hand if s is node]:
+                lists = sorted(set(lists) | {w})  # the pass statement itself puts the returned re-queue list into the work list
+            flags = sorted({fact[1] for a in rnd.tests for lab in (True, False) for fact in fl.facts(a, lab)
+                            if fact[0] == "truthy" and fact[1].isidentifier()})
+            if not lists:
+                why.add(1, f"the work list `{w}` of the pass is not replaced by a list filled during the pass")
+                continue
+            if not flags:
+                why.add(1, f"no test on a progress indicator decides whether the {rnd.what} repeats after the pass over `{w}`")
+                continue
+            exits = fl.exits(node)
+            for r in lists:
+                for g in flags:
+                    # -- the pass itself (in the driver, or in the helper through the returned tuple)
+                    if helper is None:
+                        ps = _Pass(fl, node, exits if rnd.loop is not None else rnd.entry,  # type: ignore[arg-type]
+                                   rnd.inside | {id(rnd.loop)} if rnd.loop is not None else None, rnd.stmts)
+                        if not ps.marks(g):
+                            why.add(2, f"no variable that a test on the way to the repetition looks at ({', '.join(flags)}) is set by the pass over `{w}`")
+                            continue
+                        bad = ps.indicator(g) or ps.requeue_list(r) or ps.both(g, r)
+                        resets = [s for s in rnd.binders(g) if id(s) not in ps.in_f]
+                    else:
+                        names = [e.id for e in node.targets[0].elts]  # type: ignore[attr-defined]
+                        rets = [n for n in hown if isinstance(n, ast.Return)]
+                        bad = None
+                        if names.count(g) != 1 or names.count(r) != 1:
+                            continue
+                        gi, ri = names.index(g), names.index(r)
+                        if not rets or not all(isinstance(x.value, ast.Tuple) and len(x.value.elts) == len(names) and
+                                               isinstance(x.value.elts[gi], ast.Name) and isinstance(x.value.elts[ri], ast.Name) for x in rets):
+                            bad = f"`{helper.name}` does not return the indicator and the re-queue list of its pass as elements of a tuple"
+                        hg = {x.value.elts[gi].id for x in rets} if bad is None else set()  # type: ignore[union-attr]
+                        hr = {x.value.elts[ri].id for x in rets} if bad is None else set()  # type: ignore[union-attr]
+                        if bad is None and (len(hg) != 1 or len(hr) != 1):
+                            bad = f"`{helper.name}` returns different variables as `{g}` / `{r}`"
+                        if bad is None:
+                            hfl = _Flow(helper, ix)
+                            ps = _Pass(hfl, hloop, [(_ENTRY, None, b) for b, _ in hfl.out(_ENTRY)], None, hown)
+                            g2, r2 = next(iter(hg)), next(iter(hr))
+                            bad = ps.indicator(g2) or ps.requeue_list(r2) or ps.both(g2, r2)
+                            if bad is None and _mut_kinds(ix, helper, list(helper.node.body), ast.Name(id=hparam, ctx=ast.Load())) & {"grow", "shrink", "escape"}:
+                                bad = f"`{helper.name}` modifies the work list `{hparam}` it makes its pass over"
+                        # the driver must take both values from the helper and leave them alone
+                        if bad is None and ([s for s in rnd.binders(g) if s is not node] or [s for s in rnd.binders(r) if s is not node and r != w]
+                                            or _mut_kinds(ix, f, rnd.nodes, ast.Name(id=r, ctx=ast.Load())) & {"grow", "shrink"}):
+                            bad = f"`{g}` / `{r}` returned by the pass are changed again in the {rnd.what}"
+                        resets = []
+                    if bad is not None:
+                        why.add(3, bad)
+                        continue
+                    # -- (a) repetition only after a test that the indicator of this pass is truthy
+                    if fl.reach(exits, (rnd.targets if rnd.loop is None else [node]) + resets,
+                                stop_edge=lambda a, lab, g=g: ("truthy", g, True) in fl.facts(a, lab),
+                                inside=None if rnd.loop is None else rnd.inside | {id(rnd.loop)}):
+                        why.add(4, f"the {rnd.what} can repeat on a path that has not passed a test that `{g}`, as set by the pass just made, is truthy")
+                        continue
+                    # -- (b) the next work list is the re-queue list
+                    if _mut_kinds(ix, f, rnd.nodes, ast.Name(id=w, ctx=ast.Load()), skip={h_.qual for h_ in _region_helpers(ix, f).values()}) & {"grow", "shrink"}:
+                        why.add(4, f"the work list `{w}` is modified in place")
+                        continue
+                    if rnd.loop is not None:
+                        if not all((r == w and s is node) or (isinstance(s, (ast.Assign, ast.AnnAssign)) and _elementwise_of(s.value, r)) for s in hand):
+                            why.add(4, f"the work list `{w}` is not only replaced by the re-queue list `{r}`")
+                            continue
+                        if r != w and fl.reach(exits, [node], stop_node=lambda n, hand=hand: any(n is s for s in hand), inside=rnd.inside | {id(rnd.loop)}):
+                            why.add(4, f"the work list `{w}` is not replaced by the re-queue list `{r}` on every path to the next round")
+                            continue
+                    else:
+                        if w not in params or rnd.binders(w):
+                            why.add(4, f"the work list `{w}` is not a parameter of the recursive function")
+                            continue
+                        if not all(_elementwise_of(v, r) for v in srcs):
+                            why.add(4, f"a recursive call does not hand the re-queue list `{r}` on as the work list `{w}`")
+                            continue
+                    return (f"progress rounds: one pass over `{w}` per round, repeated only if `{g}` (reset for each pass) is truthy; the "
+                            f"next work list is the re-queue list `{r}`, which never receives an item that counted as progress")
+    return None
+
+
+def _origins(e: ast.AST | None, lc: Any, params: set[str], seen: frozenset[str] = frozenset(), depth: int = 0) -> set[tuple[str, bool]]:
+    """(parameter, strict): the value may be the parameter itself (strict False) or something reached from it by attribute access,
+    subscription or iteration (strict True)"""
+    if e is None or depth > 8:
+        return set()
+    strict = lambda o: {(p, True) for p, _ in o}  # noqa: E731
+    if isinstance(e, ast.Name):
+        out: set[tuple[str, bool]] = {(e.id, False)} if e.id in params else set()
+        if e.id in seen:
+            return out
+        for kind, _, v in lc.defs.get(e.id, []):
+            if v is None or kind.startswith(("aug", "with", "except")):
+                continue
+            o = _origins(v, lc, params, seen | {e.id}, depth + 1)
+            out |= strict(o) if (kind.startswith("for") or "[" in kind) else o
+        return out
+    if isinstance(e, (ast.Attribute, ast.Subscript, ast.Starred)) and not isinstance(e, ast.Starred):
+        return strict(_origins(e.value, lc, params, seen, depth + 1))
+    if isinstance(e, ast.Starred):
+        return _origins(e.value, lc, params, seen, depth + 1)
+    if isinstance(e, ast.Call):
+        if isinstance(e.func, ast.Attribute) and e.func.attr in _ELEMENT_METHODS:
+            return strict(_origins(e.func.value, lc, params, seen, depth + 1))
+        if call_name(e).rsplit(".", 1)[-1] in _WRAPPERS:
+            out = set()
+            for a in e.args:
+                out |= _origins(a, lc, params, seen, depth + 1)
+            return out
+        return set()
+    if isinstance(e, ast.IfExp):
+        return _origins(e.body, lc, params, seen, depth + 1) | _origins(e.orelse, lc, params, seen, depth + 1)
+    if isinstance(e, ast.BoolOp):
+        out = set()
+        for v in e.values:
+            out |= _origins(v, lc, params, seen, depth + 1)
+        return out
+    if isinstance(e, (ast.Tuple, ast.List, ast.Set)):
+        out = set()
+        for v in e.elts:
+            out |= _origins(v, lc, params, seen, depth + 1)
+        return out
+    if isinstance(e, (ast.ListComp, ast.GeneratorExp, ast.SetComp)):
+        return _origins(e.elt, lc, params, seen, depth + 1)
+    if isinstance(e, ast.NamedExpr):
+        return _origins(e.value, lc, params, seen, depth + 1)
+    if isinstance(e, ast.Await):
+        return _origins(e.value, lc, params, seen, depth + 1)
+    return set()
+
+
+def _structural(ix: Any, fs: list[FuncInfo], edges: dict[str, set[str]]) -> tuple[str | None, str]:
+    """(5) structural recursion on the finite document / property tree.  A call site DESCENDS when it hands on (as an argument or as the
+    receiver) something reached from a parameter of the caller by attribute access, subscription or iteration, without handing on
+    that parameter itself; `super().m()` descends the (finite) class hierarchy.  Every cycle of the component must contain a
+    descending call: the calls that do not descend form an acyclic graph."""
+    from ..astutil import Locals
+
+    quals = {f.qual: f for f in fs}
+    forward: dict[str, set[str]] = {q: set() for q in quals}
+    located: set[tuple[str, str]] = set()
+    n_desc = 0
     for f in fs:
+        lc = Locals(f.node)
         params = {p.arg for p in f.params}
-        cyc_names = names
-        for n in ast.walk(f.node):
-            if isinstance(n, ast.Call) and call_name(n).rsplit(".", 1)[-1] in cyc_names:
-                # some argument (or the receiver) must be derived from a parameter by attribute / subscript / iteration
-                roots = set()
-                for a in list(n.args) + [k.value for k in n.keywords] + ([n.func.value] if isinstance(n.func, ast.Attribute) else []):
-                    for x in ast.walk(a):
-                        if isinstance(x, ast.Name):
-                            roots.add(x.id)
-                if not roots:
-                    ok = False
-    return "structural (recursion descends into sub-objects of the finite schema / property tree)" if ok else None
+        for c in _own_nodes(f.node):
+            if not isinstance(c, ast.Call):
+                continue
+            cn = call_name(c)
+            last = cn.rsplit(".", 1)[-1]
+            head = cn.rsplit(".", 1)[0] if "." in cn else ""
+            tgts = [g for q, g in quals.items() if g.name == last and (not edges or q in edges.get(f.qual, ()))]
+            if head[:1].isupper() and "." not in head:
+                named = [g for g in tgts if g.cls is not None and g.cls.name == head]
+                known = any(k.name == head for k in ix.classes.values())
+                if named or known:
+                    tgts = named
+            if not tgts:
+                continue
+            located |= {(f.qual, g.qual) for g in tgts}
+            if isinstance(c.func, ast.Attribute) and isinstance(c.func.value, ast.Call) and call_name(c.func.value) == "super":
+                n_desc += 1
+                continue
+            handed = list(c.args) + [k.value for k in c.keywords] + ([c.func.value] if isinstance(c.func, ast.Attribute) else [])
+            orig = [_origins(a, lc, params) for a in handed]
+            whole = {p for o in orig for p, s in o if not s}
+            if any(s and p not in whole for o in orig for p, s in o):
+                n_desc += 1
+                continue
+            for g in tgts:
+                forward[f.qual].add(g.qual)
+    # an edge of the call graph whose call site is not found (a call through a variable, getattr, ...) cannot be shown to descend
+    for q in quals:
+        for w in edges.get(q, ()):
+            if w in quals and (q, w) not in located:
+                forward[q].add(w)
+    # the non-descending calls must not form a cycle
+    state: dict[str, int] = {}
+
+    def cyc(q: str, path: list[str]) -> list[str] | None:
+        state[q] = 1
+        for w in sorted(forward[q]):
+            if state.get(w) == 1:
+                return path + [q, w]
+            if w not in state:
+                r = cyc(w, path + [q])
+                if r:
+                    return r
+        state[q] = 2
+        return None
+
+    for q in sorted(quals):
+        if q not in state:
+            r = cyc(q, [])
+            if r:
+                return None, ("not structural: the calls " + " -> ".join(x.rsplit(".", 1)[-1] for x in r)
+                              + " hand on no strict sub-object of a parameter (or hand the whole parameter on as well)")
+    return f"structural (every cycle passes one of {n_desc} calls that descend into a sub-object of a parameter)", ""
 
 
 def _exit_status(rep: Report, ctx: Any, cfgs: dict[str, CFG]) -> None:
